@@ -194,6 +194,8 @@ def options_case(rng):
     except Exception as e:
         out = proto.err_name(e)
     lines = [Line("corr", "options_dict", [",".join(proto.enc_s(o) for o in opts)], out)]
+    if not out.startswith("ERR"):
+        lines.append(Line("pred", "P.C03.options", [",".join(proto.enc_s(o) for o in opts), out]))
     return Case("options_dict", {"options": opts, "dict": out}, lines, nontrivial=len(opts) > 1)
 
 
